@@ -3,6 +3,7 @@ import Victron.Proofs.Frame
 import Victron.Proofs.Scan
 import Victron.Proofs.Loop
 import Victron.Proofs.Reads
+import Victron.Proofs.FailReads
 /-
   C06 — No device behaviour or port failure can crash or hang the driver.
   Model: the whole `Vd` machine with the fault plan (failing Write / Read / Flush at any call index) and
@@ -91,6 +92,19 @@ theorem writes_bounded (σ : Vd) (idles : List Bool) (addr : Nat) :
 theorem reads_bounded (σ : Vd) (idles : List Bool) (addr : Nat) :
     (σ.veCommandGet idles addr).1.port.nR ≤ σ.port.nR + σ.port.credit + 8 :=
   veCommandGet_reads σ idles addr
+
+/-- **…and only a bounded number of reads once the port reports no more data.** A Read that delivers nothing — end of
+    data or an error — ends the attempt it occurs in, so a register access performs at most eight of them (one per
+    attempt), a single command at most one: whatever the device sent before, however the bytes were chunked. -/
+theorem failing_reads_bounded (σ : Vd) (idles : List Bool) (addr : Nat) :
+    (σ.veCommandGet idles addr).1.port.nE ≤ σ.port.nE + 8 := by
+  have := Vd.veCommandGetL_nE (idles8 idles) σ addr
+  rw [idles8_length] at this
+  exact this
+
+theorem command_failing_reads_bounded (σ : Vd) (idle : Bool) (cmd : Nat) (data : Bytes) :
+    (σ.sendReceive idle cmd data).1.port.nE ≤ σ.port.nE + 1 :=
+  Vd.sendReceive_nE σ idle cmd data
 
 /-- non-vacuity / witnesses of the shapes that used to crash: a check-byte-valid Get response with fewer
     than three payload bytes, an empty Done frame -/
